@@ -46,6 +46,14 @@ def strings(tier, r):
         out.append(''.join(chr(r.choice([r.randint(0, 0x7f), r.randint(0x80, 0x2ff), r.randint(0x2000, 0x206f),
                                          r.randint(0xd7ff, 0xd7ff), r.randint(0xe000, 0xf8ff), r.randint(0x1f600, 0x1f64f),
                                          0x10ffff])) for _ in range(r.randint(1, 40))))
+    # long runs of ONE byte / character (every byte value; characters of every class the splitter and the
+    # escaper distinguish): no break opportunity, nothing but escapes, nothing but separators ...
+    step = 1 if tier != 'quick' else 5
+    for v in sorted(set(range(0, 256, step)) | {0, 9, 10, 32, 34, 39, 92, 127, 128, 0xaa, 0xbf, 0xc0, 0xff}):
+        out.append(bytes([v]) * r.choice([30, 75, 130]))
+    for ch in ['\xa0', '\u0301', '\u2028', '\u3000', '\U0001F600', '\ud7ff', '\x85', '\x1c', '/', '-', '_', '\x00', '\\', "'", '"']:
+        out.append(ch * r.choice([30, 75, 130]))
+        out.append(('ab' + ch) * r.choice([20, 45]))
     return out
 
 
